@@ -1,0 +1,81 @@
+//go:build verif
+
+package ssh
+
+import (
+	"time"
+
+	"golang.org/x/crypto/ssh"
+
+	v1 "github.com/fatedier/frp/pkg/config/v1"
+	"github.com/fatedier/frp/pkg/msg"
+	"github.com/fatedier/frp/pkg/virtual"
+	"github.com/fatedier/frp/verif"
+)
+
+// The ssh tunnel gateway (C04 "no session ... without valid client credentials"):
+// the virtual client created for an ssh peer logs in inside the server process.
+// It is exempt from the token check exactly when the ssh handshake itself
+// authenticated the peer (the ssh server configuration demands client
+// authentication); a gateway that accepts unauthenticated ssh peers
+// (NoClientAuth) leaves the exemption off, so the peer still needs the token.
+//
+// The command line the peer sent is parsed by code outside this contract:
+// replaced by unknown results (trusted, listed).
+//
+//verif:stub (*~/pkg/ssh.TunnelServer).parseClientAndProxyConfigurer
+func verifStubParse(s *TunnelServer, addr *tcpipForward, extraPayload string) (*v1.ClientCommonConfig, v1.ProxyConfigurer, string, error) {
+	c, pc, err := verif.Any[*v1.ClientCommonConfig](), verif.Any[v1.ProxyConfigurer](), verif.Any[error]()
+	verif.Assume(err != nil || (c != nil && pc != nil), "parsed configuration or an error")
+	return c, pc, verif.Any[string](), err
+}
+
+//verif:stub (*~/pkg/ssh.TunnelServer).waitForwardAddrAndExtraPayload
+func verifStubWait(s *TunnelServer, channels <-chan ssh.NewChannel, requests <-chan *ssh.Request, timeout time.Duration) (*tcpipForward, string, error) {
+	a, err := verif.Any[*tcpipForward](), verif.Any[error]()
+	verif.Assume(err != nil || a != nil, "forward request or an error")
+	return a, verif.Any[string](), err
+}
+
+// The virtual client itself (client.Service inside the server process), the
+// completion of the parsed configuration and the replies written to the ssh peer
+// are outside this contract (trusted replacements). The unit covers Run up to
+// the creation of the virtual client - what it is created with is decided
+// before that call - so the replacement of NewClient reports failure.
+//
+//verif:stub (*~/pkg/config/v1.ClientCommonConfig).Complete
+func verifStubComplete(c *v1.ClientCommonConfig) {}
+
+// Completing a proxy configuration writes configuration fields only (each
+// implementation is under contract for C18).
+//
+//verif:contract (~/pkg/config/v1.ProxyConfigurer).Complete
+//verif:trusted
+//verif:modifies H.pkg.config.v1.
+func verif_ssh_ProxyConfigurer_Complete(c v1.ProxyConfigurer, prefix string) { c.Complete(prefix) }
+
+//verif:stub ~/pkg/virtual.NewClient
+func verifStubNewClient(options virtual.ClientOptions) (*virtual.Client, error) {
+	err := verif.Any[error]()
+	verif.Assume(err != nil, "unit ends at the creation of the virtual client")
+	return nil, err
+}
+
+//verif:stub (*~/pkg/ssh.TunnelServer).writeToClient
+func verifStubWrite(s *TunnelServer, data string) {}
+
+//verif:contract (*~/pkg/ssh.TunnelServer).Run
+//verif:props C04
+//verif:kinds post
+func verif_TunnelServer_Run(s *TunnelServer) {
+	verif.Requires(s.sc != nil, "built_by_NewTunnelServer")
+	noAuth := s.sc.NoClientAuth
+	verif.ResetEvents()
+	_ = s.Run()
+	const evNew = "virtual.NewClient"
+	if verif.Called(evNew) {
+		opts := verif.NthArg[virtual.ClientOptions](evNew, 0, 0)
+		verif.Ensures(opts.Spec != nil && opts.Spec.Type == "ssh-tunnel" && opts.Spec.AlwaysAuthPass == !noAuth, "token_check_waived_only_for_ssh_authenticated_peers")
+		_ = msg.ClientSpec{}
+	}
+}
